@@ -115,7 +115,10 @@ def handle (st : DState) (line : String) : DState × String :=
     | none => (st, "bad-arena")
   | some (.list [.atom "eval", .atom id, env, .atom start, ex]) =>
     match findDoc st id, decEnv env, decNat start, decExpr ex with
-    | some a, some en, some s, some e =>
+    | some a, some en, some s, some e0 =>
+      -- the harness writes the expression `.` as the context item; the library reads it as the step
+      -- self::node() (an error on a context that is not a node-set), and so does the model's parser
+      let e := normCtx e0
       (st, s!"model={encResult (Model.run a en s e)} spec={encResult (Spec.run a en s e)} speckf={encResult (Spec.runKF a en s e)}")
     | none, _, _, _ => (st, "bad-doc")
     | _, none, _, _ => (st, "bad-env")
